@@ -67,6 +67,15 @@ def one_case(rng, res, check_c11=True, tamper="draw", case_no=None):
                      {"why": "a link file written by in-toto's own tooling cannot be read back (%s: %s)" % (type(e).__name__, str(e)[:120])})
             return
         i = h.verify_impl(scn)
+        if desc["tamper"] == "unreadable":
+            # judged on the implementation alone (the model has no files that cannot be read): a final product with an
+            # added file, readable or not, is not what the last step recorded
+            res.case({"desc": desc, "impl": vcommon.short(i)}, True, True)
+            res.count("tamper_unreadable")
+            if vcommon.accepted(i):
+                res.fail("oracle", {"op": "chain_verify", "desc": desc},
+                         {"why": "verification succeeded although a file that cannot be read was added to the final product"})
+            return
         m = W.norm_model_verify(scn.run_model())
         m["log"] = []
         honest = m.pop("honest", None)
